@@ -784,6 +784,14 @@ def enuminfer(repo):
                     tests = [x for x in ast.walk(lp) if isinstance(x, ast.If)]
                     for t in tests:
                         c = t.test
+                        if isinstance(c, ast.BoolOp) and isinstance(c.op, ast.And):
+                            # `v is not None and v < 0`: a value that is not known yet is not negative
+                            rest = [v for v in c.values if not (isinstance(v, ast.Compare) and len(v.ops) == 1
+                                                                and isinstance(v.ops[0], ast.IsNot)
+                                                                and isinstance(v.comparators[0], ast.Constant)
+                                                                and v.comparators[0].value is None)]
+                            if len(rest) == 1:
+                                c = rest[0]
                         strict = isinstance(c, ast.Compare) and len(c.ops) == 1 and (
                             (isinstance(c.ops[0], ast.Lt) and isinstance(c.comparators[0], ast.Constant) and c.comparators[0].value == 0)
                             or (isinstance(c.ops[0], ast.Gt) and isinstance(c.left, ast.Constant) and c.left.value == 0))
